@@ -123,7 +123,7 @@ PROPS["C09"] = {
 }
 PROPS["C05"] = {
     "imports": VIEW_IMPORTS + " Proofs.C11_Statements Proofs.C01_Statements Proofs.C03_Statements Proofs.C03b_Statements Proofs.C03c_Statements Proofs.NormalFormWf Spec.Exec", "prelude": "Definition cfg := Cfg{TAG}.cfg.",
-    "level_text": "Theorem: for every configuration and every code object satisfying view_wf (opcodes known), the normal form of the decoded data reads as the original's instruction stream (opcodes, resolved operands with nested code normalized in turn, jump structure, lines), it is well-formed data, and CPython's disassembler / line reader read the code re-encoded from it as that same stream, with name, filename, first line, stack size and free variables unchanged (composition of C02's decoder theorem, the normal-form well-formedness and C03's encoder theorem). Premises are evaluated on every corpus object (wf-monitor); normalize-then-encode of model and code are compared as full code objects. The behavioural clause (same results, output, exceptions, traced lines) is proved parametrically (Spec/Exec.v, Proofs/ExecLayout.v): for EVERY interpreter whose per-instruction semantics observes opcode, resolved operand and line only (not distinguishing key-equal constants nor a nested code constant from its normal form), CPython's byte-offset execution of a code object is the index execution of its symbolic view (no premise), and the original and the re-encoded normal form end in the same state with the same outcome after the same (opcode, line) event sequence for every fuel and initial state. That ceval is such an interpreter is an assumption, exercised by executing generated terminating programs before/after (stdout, exception, line trace); the machine of Spec/Exec.v itself is validated on every run against the real eval loop: driven by the branch decisions CPython took (sys.settrace opcode events), it must visit the same instructions with the same lines (group spec-exec)", "level_note": "execution equivalence is proved for the class of operand-level interpreters only; CPython's ceval itself is not modelled (no object model, no stack): that it belongs to the class is assumed and tested by execution; flags (CO_NESTED / CO_NOFREE differences) are checked by the oracle's header comparison, not in the theorem", "trusted_base": COMMON_TB + ["CPython's evaluation of bytecode (exec, sys.settrace) for the behavioural clause: outside every theorem"], "assumptions": [],
+    "level_text": "Theorem: for every configuration and every code object satisfying view_wf (opcodes known), the normal form of the decoded data reads as the original's instruction stream (opcodes, resolved operands with nested code normalized in turn, jump structure, lines), it is well-formed data, and CPython's disassembler / line reader read the code re-encoded from it as that same stream, with name, filename, first line, stack size and free variables unchanged (composition of C02's decoder theorem, the normal-form well-formedness and C03's encoder theorem). Premises are evaluated on every corpus object (wf-monitor); normalize-then-encode of model and code are compared as full code objects. The behavioural clause (same results, output, exceptions, traced lines) is proved parametrically (Spec/Exec.v, Proofs/ExecLayout.v): for EVERY interpreter whose per-instruction semantics observes opcode, resolved operand and line only (not distinguishing key-equal constants nor a nested code constant from its normal form), CPython's byte-offset execution of a code object is the index execution of its symbolic view (no premise), and the original and the re-encoded normal form end in the same state with the same outcome after the same (opcode, line) event sequence for every fuel and initial state. That ceval is such an interpreter is an assumption, exercised by executing generated terminating programs before/after (stdout, exception, line trace); the machine of Spec/Exec.v itself is validated on every run against the real eval loop: driven by the branch decisions CPython took (sys.settrace opcode events), it must visit the same instructions with the same lines (group spec-exec)", "level_note": "execution equivalence is proved for the class of operand-level interpreters only; CPython's ceval itself is not modelled (no object model, no stack): that it belongs to the class is assumed and tested by execution; the header is covered by C05_normalization_keeps_the_header_up_to_nested_and_nofree (argument counts and every flag bit kept, CO_NESTED cleared, CO_NOFREE re-derived)", "trusted_base": COMMON_TB + ["CPython's evaluation of bytecode (exec, sys.settrace) for the behavioural clause: outside every theorem"], "assumptions": [],
     "rule": "every corpus / generated code object: symbolic equivalence (dis view, header) of c and normalize().to_code(); generated terminating programs executed with stdout, exception and line trace compared; "
             "distinct = distinct (co_code, name, firstlineno, line table)",
     "replay_hint": "compile data.source (or the named file); c2 = CodeData.from_code(c).normalize().to_code(); compare dis views / exec both",
@@ -165,7 +165,7 @@ PROPS["C06"] = {
 
 PROPS["C03"] = {
     "imports": VIEW_IMPORTS + " Proofs.C11_Statements Proofs.C01_Statements Proofs.C03_Statements Proofs.C03b_Statements Proofs.C03c_Statements Proofs.EncodeTotal1 Proofs.EncodeTotal", "prelude": "Definition cfg := Cfg{TAG}.cfg.",
-    "level_text": "Theorem (K2) for every configuration and every datum satisfying the boolean data_wf (no private override fields, operand kinds fit the opcodes, jumps designate existing blocks, relative jumps forward): the emitted code object is read back by CPython's disassembler and line reader (Spec/Dis.v, Spec/Lnotab.v) as the data's instruction stream - opcodes, resolved operands (constants up to key equality), jump targets as instruction indices with kind, lines - and the header fields say what the data says; to_code terminates for all data without negative size overrides (real termination proof of the jump-width fix-point) and RETURNS a code object for well-formed data exactly when enc_ok holds (stack size >= 0, free-variable operands declared, no positional-only parameters before 3.8, flags expressible: C03_to_code_returns_iff_enc_ok, both directions); at exit every jump operand is the one the layout requires; gap and collision overrides raise. data_wf and the conclusion are evaluated on every generated datum (wf-monitor); full from_code_data outputs of model and code are compared on hand-built graphs incl. inconsistent overrides", "level_note": "the clause 're-decoding gives the data up to normalization' is proved on the flattened instruction stream (C03_emitted_code_is_in_the_decoder_domain, C03_redecode_gives_the_stream: the emitted code satisfies view_wf and its decoding reads as the input's stream, constants up to key equality); equality of normal forms including block boundaries and header is compared by the oracle; data with line_number=None is outside data_wf before 3.10 (the format cannot express it; to_code raises TypeError); a negative _n_args_override makes to_code loop forever (RelaxProofs.relax_diverges) - not well-formed data", "trusted_base": COMMON_TB + ["dis / co_lines / PyCode_Addr2Line of the running interpreter as readers of the emitted code"],
+    "level_text": "Theorem (K2) for every configuration and every datum satisfying the boolean data_wf (no private override fields, operand kinds fit the opcodes, jumps designate existing blocks, relative jumps forward): the emitted code object is read back by CPython's disassembler and line reader (Spec/Dis.v, Spec/Lnotab.v) as the data's instruction stream - opcodes, resolved operands (constants up to key equality), jump targets as instruction indices with kind, lines - and the header fields say what the data says; to_code terminates for all data without negative size overrides (real termination proof of the jump-width fix-point) and RETURNS a code object for well-formed data exactly when enc_ok holds (stack size >= 0, free-variable operands declared, no positional-only parameters before 3.8, flags expressible: C03_to_code_returns_iff_enc_ok, both directions); at exit every jump operand is the one the layout requires; gap and collision overrides raise. data_wf and the conclusion are evaluated on every generated datum (wf-monitor); full from_code_data outputs of model and code are compared on hand-built graphs incl. inconsistent overrides", "level_note": "the clause 're-decoding gives the data up to normalization' is proved on the flattened instruction stream (C03_emitted_code_is_in_the_decoder_domain, C03_redecode_gives_the_stream: the emitted code satisfies view_wf and its decoding reads as the input's stream, constants up to key equality); and, for data whose blocks are cut at the jump-target partition (blocks_canonical), C03_redecode_gives_the_data_up_to_normalization proves that the re-decoded data is == to the input up to normalization (blocks, header, signature, docstring, nested constants); without that premise the statement is refuted in Coq; data with line_number=None is outside data_wf before 3.10 (the format cannot express it; to_code raises TypeError); a negative _n_args_override makes to_code loop forever (RelaxProofs.relax_diverges) - not well-formed data", "trusted_base": COMMON_TB + ["dis / co_lines / PyCode_Addr2Line of the running interpreter as readers of the emitted code"],
     "assumptions": ["line_number is not None on <= 3.9 (the co_lnotab format cannot express 'no line'; to_code raises TypeError there)"],
     "rule": "hand-built block graphs without override fields: 1-7 blocks of 1-260 instructions, absolute jumps in both directions, forward relative jumps, name tables of 3-300 (thorough 70000) entries, "
             "constants with colliding Python values (1/True/1.0, 0.0/-0.0, 'a'/b'a'), lines with deltas around +-127/128/255/300 and None (3.10), all signature shapes; plus gap / collision / negative overrides; "
